@@ -2,10 +2,10 @@
 from qty_common import QTY_TRUSTED
 
 CFG = dict(
-    lean_modules=["NumbatModel.Props.C03", "NumbatModel.Inst.Real"],
+    lean_modules=["NumbatModel.Props.C03", "NumbatModel.Inst.Real", "NumbatModel.Oblig.UnitTable"],
     driver="drv_c03",
     harness="c03",
-    gens=[],
+    gens=["gen_units:generate"],
     level="proof",
     trusted_base=QTY_TRUSTED + [
         "Rational::from_f64 (num-rational approximate_float) is an external parameter: the generator only uses exponents "
